@@ -12,7 +12,7 @@ open DI.Py
 
 /-- dataiter/list_of_dicts.py: ListOfDicts.group_by (sha256 of the function source: 6a7f309844f255cb) -/
 def ListOfDicts_group_by (truth : Term → Bool) : Out :=
-  let attr0_1' : Term := (Term.app "tuple" [(Term.sym "keys")]);
+  let attr0_1' : Term := (Term.app "tuple()" [(Term.sym "keys")]);
   let eff0 : Term := (Term.app "setattr" [(Term.sym "self"), (Term.sym "_group_keys"), attr0_1']);
   Out.ret [eff0] (Term.sym "self")
 
@@ -29,7 +29,7 @@ def ListOfDicts_anti_join (truth : Term → Bool) : Out :=
   let by2' : Term := (Term.app "item1" [tup0_1']);
   let extract1' : Term := (Term.app "operator.itemgetter" [(Term.app "*" [by1'])]);
   let extract2' : Term := (Term.app "operator.itemgetter" [(Term.app "*" [by2'])]);
-  let other_ids' : Term := (Term.app "set" [(Term.app "map" [extract2', (Term.sym "other")])]);
+  let other_ids' : Term := (Term.app "set()" [(Term.app "map" [extract2', (Term.sym "other")])]);
   let eff0 : Term := (Term.app "for" [(Term.sym "item"), (Term.sym "self"), (Term.app "block" [(Term.app "if" [(Term.app "NotIn" [(Term.app "call" [extract1', (Term.sym "item")]), other_ids']), (Term.app "block" [(Term.app "yield" [(Term.sym "item")])]), (Term.app "block" [])])])]);
   Out.fall [eff0]
 
@@ -70,7 +70,7 @@ def ListOfDicts_full_join (truth : Term → Bool) : Out :=
   if truth (Term.app "Eq" [(Term.app "len" [b']), (Term.int (0 : Int))]) then
     Out.ret [] (Term.app ".unselect" [ab', (Term.sym "'_aid_'"), (Term.sym "'_bid_'")])
   else
-    let by_reverse' : Term := (Term.app "ListComp" [(Term.app "ifexp" [(Term.app "isinstance" [(Term.sym "x"), (Term.app "tuple" [(Term.sym "list"), (Term.sym "tuple")])]), (Term.app "tuple" [(Term.app "reversed" [(Term.sym "x")])]), (Term.sym "x")]), (Term.app "in" [(Term.sym "x"), (Term.sym "by"), (Term.app "if" [])])]);
+    let by_reverse' : Term := (Term.app "ListComp" [(Term.app "ifexp" [(Term.app "isinstance" [(Term.sym "x"), (Term.app "tuple" [(Term.sym "list"), (Term.sym "tuple")])]), (Term.app "tuple()" [(Term.app "reversed" [(Term.sym "x")])]), (Term.sym "x")]), (Term.app "in" [(Term.sym "x"), (Term.sym "by"), (Term.app "if" [])])]);
     let ba' : Term := (Term.app ".left_join" [b', a', (Term.app "*" [by_reverse'])]);
     let ba' : Term := (Term.app ".fill_missing_keys" [ba', (Term.app "=_aid_" [(Term.app "next" [acounter'])])]);
     Out.ret [] (Term.app ".unselect" [(Term.app ".sort" [(Term.app "Add" [ab', ba']), (Term.app "=_aid_" [(Term.int (1 : Int))]), (Term.app "=_bid_" [(Term.int (1 : Int))])]), (Term.sym "'_aid_'"), (Term.sym "'_bid_'")])
@@ -138,7 +138,7 @@ def ListOfDicts_semi_join (truth : Term → Bool) : Out :=
   let by2' : Term := (Term.app "item1" [tup0_1']);
   let extract1' : Term := (Term.app "operator.itemgetter" [(Term.app "*" [by1'])]);
   let extract2' : Term := (Term.app "operator.itemgetter" [(Term.app "*" [by2'])]);
-  let other_ids' : Term := (Term.app "set" [(Term.app "map" [extract2', (Term.sym "other")])]);
+  let other_ids' : Term := (Term.app "set()" [(Term.app "map" [extract2', (Term.sym "other")])]);
   let eff0 : Term := (Term.app "for" [(Term.sym "item"), (Term.sym "self"), (Term.app "block" [(Term.app "if" [(Term.app "In" [(Term.app "call" [extract1', (Term.sym "item")]), other_ids']), (Term.app "block" [(Term.app "yield" [(Term.sym "item")])]), (Term.app "block" [])])])]);
   Out.fall [eff0]
 
